@@ -151,6 +151,7 @@ class Gen:
     self.cdepth = {}         # name -> upper bound of the container nesting depth of its values (monotone)
     self.in_func = None
     self.f_shallow = False
+    self.call_first = {}
 
   # -- static bound on container nesting
   def edepth(self, e):
@@ -243,6 +244,21 @@ class Gen:
     f = self.r.choice(fs)
     info = self.funcs[f]
     args = [self.expr(names, depth) for _ in range(info["np"])]
+    # pytype caches calls by argument data (not modelled): a function is called again only with a first argument
+    # that is a literal not used before for it
+    used = self.call_first.setdefault(f, set())
+    if used or info["np"] == 0:
+      if info["np"] == 0 and "called" in used:
+        return None
+      if info["np"] > 0:
+        for _ in range(4):
+          a0 = self.lit()
+          if lit_key(a0) not in used:
+            break
+        else:
+          return None
+        args[0] = a0
+    used.add(lit_key(args[0]) if args and lit_key(args[0]) is not None else "called")
     if info["shallow"]:
       args = [self.shallow(a) for a in args]
       if info["globs"] and any(v > MAXD for k, v in self.cdepth.items() if k < 20):
@@ -382,6 +398,21 @@ class Gen:
     prog = []
     defined = set()
     gpool = list(range(0, 8))
+    # most programs start with values whose truthiness pytype cannot decide (floats, ints outside -1..12) and a
+    # name with two bindings, so that branches split into several worlds
+    if r.random() < 0.7:
+      x = r.choice(gpool)
+      prog.append(("assign", x, r.choice([("float", r.choice(FLOATS)), ("int", r.choice([13, 100, -5]))])))
+      defined.add(x)
+      self.hashable.add(x)
+      self.budget -= 1
+      if r.random() < 0.7:
+        y = r.choice([g for g in gpool if g != x])
+        a, b = self.lit(), self.lit()
+        prog.append(("assign", y, ("ifexp", ("name", x), a, b)))
+        defined.add(y)
+        self.hashable.add(y)
+        self.budget -= 1
     while self.budget > 0:
       if r.random() < self.features.get("p_def", 0.18) and self.nfunc < 6:
         fid = self.nfunc
@@ -508,7 +539,7 @@ def c_expr(e):
   if t in ("list", "tuple", "set"):
     return "(%s %s)" % ({"list": "EList", "tuple": "ETuple", "set": "ESet"}[t], c_list(c_expr(x) for x in e[1]))
   if t == "dict":
-    return "(EDict %s)" % c_list("(%s, %s)" % (c_expr(k), c_expr(v)) for k, v in e[1])
+    return "(EDict %s %s)" % (c_list(c_expr(k) for k, _ in e[1]), c_list(c_expr(v) for _, v in e[1]))
   if t == "not":
     return "(ENot %s)" % c_expr(e[1])
   if t == "isnone":
@@ -683,3 +714,131 @@ def ty_subset(a, b):
 
 def parse_type_str(s):
   return parse_type_expr(ast.parse(s, mode="eval").body)
+
+
+# ---------------------------------------------------------------------------------------
+# running the Coq model: cases files and decoding of the printed terms
+
+def cases_file(progs, fuel=12):
+  """progs: list of (prog, names).  One `Eval vm_compute` per program."""
+  out = ["From Coq Require Import List ZArith.", "From PV Require Import Vm.Model.", "Import ListNotations.",
+         "Open Scope nat_scope."]
+  for prog, names in progs:
+    p = [norm_stmt(s) for s in prog]
+    tops = []
+    for s in p:
+      if s[0] == "def":
+        tops.append("TDef %d %s %s" % (s[1], c_list(str(x) for x in s[2]), c_list(c_stmt(x) for x in s[3])))
+      else:
+        tops.append("TStmt %s" % c_stmt(s))
+    out.append("Eval vm_compute in (report %s %s %d)." % (c_list(tops), c_list(str(n) for n in names), fuel))
+  return "\n".join(out) + "\n"
+
+
+class _P:
+  """parser for the subset of Coq term syntax that `Eval` prints for nested lists/pairs/options/bools/numbers"""
+
+  def __init__(self, s):
+    import re
+    self.toks = re.findall(r"-?\d+|[()\[\];,]|true|false|Some|None", s.replace("%Z", "").replace("%nat", ""))
+    self.i = 0
+
+  def peek(self):
+    return self.toks[self.i] if self.i < len(self.toks) else None
+
+  def eat(self, t=None):
+    x = self.toks[self.i]
+    assert t is None or x == t, (x, t, self.toks[max(0, self.i - 5):self.i + 5])
+    self.i += 1
+    return x
+
+  def term(self):
+    t = self.peek()
+    if t == "[":
+      self.eat()
+      xs = []
+      while self.peek() != "]":
+        xs.append(self.term())
+        if self.peek() == ";":
+          self.eat()
+      self.eat("]")
+      return xs
+    if t == "(":
+      self.eat()
+      xs = [self.term()]
+      while self.peek() == ",":
+        self.eat()
+        xs.append(self.term())
+      self.eat(")")
+      return xs[0] if len(xs) == 1 else tuple(xs)
+    if t == "Some":
+      self.eat()
+      return ("Some", self.term())
+    if t == "None":
+      self.eat()
+      return None
+    if t in ("true", "false"):
+      self.eat()
+      return t == "true"
+    return int(self.eat())
+
+
+def parse_term(s):
+  return _P(s).term()
+
+
+def dec_ty(toks, i=0):
+  """decodes enc_ty; returns (canonical ty, next index)"""
+  k = toks[i]
+  base = {0: ("any",), 1: ("nothing",), 2: ("base", "None"), 3: ("base", "int"), 4: ("base", "float"),
+          5: ("base", "str"), 6: ("base", "bytes"), 7: ("base", "bool")}
+  if k in base:
+    return base[k], i + 1
+  if k == 8 or k == 9:
+    t, j = dec_ty(toks, i + 1)
+    return ("gen", "list" if k == 8 else "set", (t,)), j
+  if k == 10:
+    a, j = dec_ty(toks, i + 1)
+    b, j = dec_ty(toks, j)
+    return ("gen", "dict", (a, b)), j
+  if k == 12:
+    t, j = dec_ty(toks, i + 1)
+    return ("homtuple", t), j
+  n = toks[i + 1]
+  j = i + 2
+  ts = []
+  for _ in range(n):
+    t, j = dec_ty(toks, j)
+    ts.append(t)
+  if k == 11:
+    return ("tuple", tuple(ts)), j
+  return mk_union(ts), j
+
+
+def dec_value(toks, i=0):
+  k = toks[i]
+  if k == 0:
+    return ("int", toks[i + 1]), i + 2
+  if k == 1:
+    return ("float", toks[i + 1]), i + 2
+  if k == 2:
+    return ("str", toks[i + 1]), i + 2
+  if k == 3:
+    return ("bytes", toks[i + 1]), i + 2
+  if k == 4:
+    return ("bool", toks[i + 1] == 1), i + 2
+  if k == 5:
+    return ("none",), i + 1
+  n = toks[i + 1]
+  j = i + 2
+  xs = []
+  for _ in range(n if k != 9 else 2 * n):
+    v, j = dec_value(toks, j)
+    xs.append(v)
+  if k == 6:
+    return ("list", tuple(xs)), j
+  if k == 7:
+    return ("tuple", tuple(xs)), j
+  if k == 8:
+    return ("set", frozenset(xs)), j
+  return ("dict", tuple(zip(xs[:n], xs[n:]))), j
